@@ -67,6 +67,7 @@ class Recorder:
         self.on_trigger = None
         self.exit_sockets = {}   # id(exit socket) -> exit socket (everything T ever owned)
         self.context = ""        # what the driver is doing (diagnostics only)
+        self.slow = {}           # sim endpoint -> seconds: datagrams of that peer towards T arrive that much later
         self.probe_calls = 0
 
     # ---- log
@@ -146,6 +147,11 @@ class Recorder:
     def on_transmit(self, dg):
         if self.node is not None and dg.sender is self.node.sim_endpoint:
             self.log("Send", 0, note="msg %s to %s" % (dg.data[22] if len(dg.data) > 22 else "-", dg.dst))
+            return None
+        delay = self.slow.get(dg.sender)
+        if delay and self.node is not None and dg.dst == tuple(self.node.address[:2]):
+            self.net.loop.call_later(delay, self.net.deliver, dg)      # a slow responder: delivered later
+            return []
         return None
 
     def on_outside(self, transport, data, addr):
